@@ -185,6 +185,9 @@ NS_ = 10 ** 9
 # ran away at the full 50 ppm, and the first report after the outage says so.  Publication 3: tight again.
 SEM = {1: (100 * NS_, 1100 * NS_, 10 ** 6, 50000, 1), 2: (100000 * NS_, 101000 * NS_, 6 * NS_, 50000, 1), 3: (100300 * NS_, 101300 * NS_, 10 ** 6, 50000, 1)}
 ERR = {1: 9 * 10 ** 5, 2: 4995 * 10 ** 6 + 9 * 10 ** 5, 3: 9 * 10 ** 5}     # realtime minus true time around each publication
+SEM_A, ERR_A = SEM, ERR
+SEM_B = {1: SEM[1], 2: (100000 * NS_, 101000 * NS_, 10 ** 6, 50000, 1), 3: (100300 * NS_, 101300 * NS_, 6 * NS_, 50000, 1)}
+ERR_B = {1: ERR[1], 2: 9 * 10 ** 5, 3: 4995 * 10 ** 6 + 9 * 10 ** 5}
 
 
 def rng_free(a, b, k):
@@ -224,12 +227,24 @@ def concurrent_part(res):
                 scheds.append(head + [("W",)] * a + [R] * b + [("W",)] * rng_free(a, b, k) + [R] * 40 + [("W",)] * 11 + [R] * 13)
     outs = c.run_lines_hang_aware(binary, [_shm.line_of(nominal, sc) for sc in scheds], "hang")
     calls, lines = [], []
-    for sc, o in zip(scheds, outs):
+    # ... and the daemon dying in the middle of update 3 right after the client (holding publication 1) had started to
+    # copy: the call gives up when its budget is spent; what the next call answers from (`stall 3`)
+    try:
+        st3 = c.run_lines(binary, ["stall 3"], timeout=120)[0].split()
+    except c.CheckError:
+        st3 = []
+    extra_obs = []
+    if len(st3) > 4 and st3[4] != "E":
+        extra_obs.append(("stall 3", " ".join(st3), [{"t": "T", "ret": "C", "cells": [int(x) for x in st3[4].split(",")]}]))
+    for sc, o, obs_list in [(sc, o, None) for sc, o in zip(scheds, outs)] + extra_obs:
         res.evaluations += 1
         res.count("gen:client call overlapping a publication")
         if o == "hang":
             continue
-        for ob in _shm.parse_obs(o):
+        # what the publications say: the table above, or - for the call after a give-up - a world in which the third
+        # publication is the one with the large error (a resynchronisation after a long free run): both are truthful
+        SEM, ERR = (SEM_B, ERR_B) if isinstance(sc, str) else (SEM_A, ERR_A)
+        for ob in (obs_list if obs_list is not None else _shm.parse_obs(o)):
             if ob["t"] == "T" and ob["ret"] in ("F", "C") and ob["cells"] and any(ob["cells"]):
                 ks = [v // 1000 for v in ob["cells"][:6]] + [None]
                 if any(k not in SEM for k in ks[:6]) or any(ob["cells"][i] != 1000 * ks[i] + i for i in range(6)):
@@ -244,7 +259,9 @@ def concurrent_part(res):
                 calls.append((sc, o, ks[:6], t, real))
     model = c.run_model(lines) if lines else []
     bad = []
+    SEM = dict(SEM_A)
     for (sc, o, ks, t, real), ln, m in zip(calls, lines, model):
+        SEM = SEM_B if isinstance(sc, str) else SEM_A
         r = m.split()
         if r[0] != "ok" or r[5] == "0":
             continue
@@ -252,7 +269,7 @@ def concurrent_part(res):
         if len(set(ks)) > 1:
             res.nontriv(ln)
         if not (e - 4 <= t <= l + 4):
-            bad.append({"schedule": _shm.tok_str(sc), "impl": o, "why": [
+            bad.append({"schedule": sc if isinstance(sc, str) else _shm.tok_str(sc), "impl": o, "why": [
                 "a client call overlapping a publication obtained cells of publications %s; read as the records %s the interval at the clock reading %d is [%d, %d] with status %s, "
                 "true time %d is outside it by %d ns" % (ks, {k: SEM[k] for k in sorted(set(ks))}, real, e, l, r[5], t, max(e - t, t - l))]})
     res.oblige("a client call overlapping a publication obtains one whole publication (premise of the containment theorem), %d calls" % len(calls), not bad)
@@ -316,6 +333,12 @@ def run(res, proofs_ok, proofs_why, only=None):
 def replay(res, path):
     r = json.load(open(path))
     case = r.get("case") or r.get("first_differences", [{}])[0]
+    if str(case.get("schedule", "")).startswith("stall"):
+        from props import _shm
+        out = c.run_lines(c.build_harness("debug")[0], [case["schedule"]], timeout=120)[0].split()
+        cells = [int(x) for x in out[4].split(",")] if len(out) > 4 and out[4] != "E" else None
+        print("case %s\nimpl %s\nthe call after the one that gave up answers from: %s" % (case["schedule"], " ".join(out), cells))
+        return 0 if cells is not None and _shm.rec_index(cells) == 1 else 1
     if "schedule" in case:
         # a client call overlapping a publication: the schedule is replayed against the oracle of C02
         from props import _shm
